@@ -17,6 +17,7 @@ import (
 	"path"
 	"sort"
 	"strings"
+	"sync/atomic"
 
 	v1 "github.com/google/go-containerregistry/pkg/v1"
 	"github.com/google/go-containerregistry/pkg/v1/empty"
@@ -269,6 +270,17 @@ func ltRun(c *ltCase, mode, layout string) map[string]any {
 		files[p] = true
 	}
 	var exs []filesystem.Extractor
+	var oversize atomic.Int64
+	// layout "maxfile": the scan runs with MaxFileSize = the size of the largest one-package list, so a list of two
+	// packages is over the limit in whatever view it is met (C10: never handed to an extractor)
+	var maxFile int64
+	if hasLayout(layout, "maxfile") {
+		for id := range ltPkgs {
+			if n := int64(len(ltContent(mode, []string{id}))); n > maxFile {
+				maxFile = n
+			}
+		}
+	}
 	switch mode {
 	case "dpkg":
 		exs = []filesystem.Extractor{dpkg.NewDefault()}
@@ -279,13 +291,14 @@ func ltRun(c *ltCase, mode, layout string) map[string]any {
 			&pkgListExtractor{name: "verif/pkglist2", files: files, only: func(n string) bool { return n == second }},
 		}
 	default:
-		exs = []filesystem.Extractor{&pkgListExtractor{name: "verif/pkglist", files: files}}
+		exs = []filesystem.Extractor{&pkgListExtractor{name: "verif/pkglist", files: files, maxFile: maxFile, oversize: &oversize}}
 	}
 	var res *scalibr.ScanResult
 	var serr error
 	if p := Safely(func() {
 		res, serr = scalibr.New().ScanContainer(context.Background(), img, &scalibr.ScanConfig{
 			FilesystemExtractors: exs,
+			MaxFileSize:          int(maxFile),
 			Capabilities:         &plugin.Capabilities{OS: plugin.OSLinux, Network: plugin.NetworkOffline},
 		})
 	}); p != "" {
@@ -339,6 +352,8 @@ func ltRun(c *ltCase, mode, layout string) map[string]any {
 		got[key] = map[string]any{"idx": p.LayerDetails.Index, "cmd": p.LayerDetails.Command, "layer": layer}
 	}
 	obs["obs"] = got
+	obs["oversize"] = oversize.Load()
+	obs["max_file"] = maxFile
 	return obs
 }
 
